@@ -107,7 +107,7 @@ impl Property for C11 {
         }
     }
     fn rule(&self) -> &'static str {
-        "one run = one generated (document incl. buffer-growing tails, handler set, schedule, preallocation, 0-2 appending bail-out handlers); a fault-free pre-run discovers the fault points; then, for each of the four graceful-flag combinations drawn per fault, one case per handler invocation index 1..N (Err before/after the script) and one case per limiter charge (limit = usage after that charge - 1), up to the caps 40/120 and 30/100 (seeded sample beyond); the sink content at the error return is compared with prefix-of-fault-free-output ++ appends ++ raw remainder; non-trivial = a fault fired; distinct by scenario fingerprint"
+        "one run = one generated (document incl. buffer-growing tails, handler set, schedule, preallocation, 0-2 appending bail-out handlers); a fault-free pre-run discovers the fault points; then, for each of the four graceful-flag combinations drawn per fault, one case per handler invocation index 1..N (Err before/after the script) and one case per limiter charge (limit = usage after that charge - 1), up to the caps 40/120 and 30/100 (seeded sample beyond); in half of the runs additionally 3/8 cases in which the only mutation is one inserting handler (before/after/prepend/append/start-tag/end-tag/text/comment/document-end) whose *streaming* content handler returns Err after writing its pieces, i.e. a failure during token serialisation (oracle: sink minus the inserted marker == received input); the sink content at the error return is compared with prefix-of-fault-free-output ++ appends ++ raw remainder; non-trivial = a fault fired; distinct by scenario fingerprint"
     }
     fn assumptions(&self) -> Vec<&'static str> {
         vec![
@@ -137,6 +137,23 @@ impl Property for C11 {
             ex.stats.bump("fault.handler_error_planned");
             if !ex.check(Case::of(sc)) {
                 return;
+            }
+        }
+        // streaming content handlers that fail *while the token is being serialised*
+        if std::str::from_utf8(&base.doc).is_ok() && rng.chance(1, 2) {
+            for _ in 0..if tier == Tier::Quick { 3 } else { 8 } {
+                let mut sc = base.clone();
+                sc.handlers.retain(HandlerSpec::is_observer);
+                sc.joins.clear();
+                sc.handlers.push(stream_fault_handler(rng));
+                sc.graceful_handler = rng.chance(4, 5);
+                sc.graceful_mem = rng.bool();
+                ex.stats.bump("fault.stream_failure_planned");
+                let mut c = Case::of(sc);
+                c.mode = "stream_fault".into();
+                if !ex.check(c) {
+                    return;
+                }
             }
         }
         let limits = faults::mem_limits(&pre, base.prealloc);
@@ -243,6 +260,9 @@ impl Property for C11 {
                 cands.push((i, a));
             }
         }
+        if case.mode == "stream_fault" {
+            return Ok(stream_fault_conservation(sc, &p_and_r, received, st));
+        }
         let observers_only = !sc.has_mutators();
         let canonical = sc.encoding == "utf-8" && std::str::from_utf8(&sc.doc).is_ok();
         // exact expectation for handler faults: the failing token's start and the sink length there
@@ -344,6 +364,83 @@ impl Property for C11 {
         st.bump("c11.conservation_structural");
         Ok(Ok(()))
     }
+}
+
+pub const STREAM_MARK: &str = "\u{2}sf\u{2}";
+
+/// One inserting handler whose streamed content fails after having been written: the only
+/// mutation of the scenario, so the sink minus the marker must be the received input.
+fn stream_fault_handler(rng: &mut Rng) -> HandlerSpec {
+    let c = Content { s: STREAM_MARK.into(), html: true, stream: rng.range(1, 3) as u8, fail_stream: true };
+    let sel: String = rng.pick(wl::OBS_SELECTORS).into();
+    match rng.below(12) {
+        0 => HandlerSpec::Element { sel, ops: vec![ElOp::Before(c)] },
+        1 | 2 => HandlerSpec::Element { sel, ops: vec![ElOp::After(c)] },
+        3 | 4 => HandlerSpec::Element { sel, ops: vec![ElOp::Prepend(c)] },
+        5 => HandlerSpec::Element { sel, ops: vec![ElOp::Append(c)] },
+        6 => HandlerSpec::Element { sel, ops: vec![ElOp::StBefore(c)] },
+        7 => HandlerSpec::Element { sel, ops: vec![ElOp::StAfter(c)] },
+        8 => HandlerSpec::Element { sel, ops: vec![ElOp::OnEndTag(vec![if rng.bool() { EtOp::Before(c) } else { EtOp::After(c) }])] },
+        9 => HandlerSpec::Text { sel: if rng.bool() { Some(sel) } else { None }, ops: vec![if rng.bool() { TxOp::Before(c) } else { TxOp::After(c) }], when: if rng.bool() { TextWhen::Always } else { TextWhen::LastOnly } },
+        10 => HandlerSpec::Comment { sel: if rng.bool() { Some(sel) } else { None }, ops: vec![if rng.bool() { CmOp::Before(c) } else { CmOp::After(c) }] },
+        _ => HandlerSpec::End { ops: vec![c] },
+    }
+}
+
+fn strip_marker(v: &[u8]) -> Vec<u8> {
+    let m = STREAM_MARK.as_bytes();
+    let mut out = Vec::with_capacity(v.len());
+    let mut i = 0;
+    while i < v.len() {
+        if v[i..].starts_with(m) {
+            i += m.len();
+        } else {
+            out.push(v[i]);
+            i += 1;
+        }
+    }
+    out
+}
+
+/// Conservation for a failing streaming handler (insert-only): sink minus marker == received.
+fn stream_fault_conservation(sc: &Scenario, p_and_r: &[u8], received: &[u8], st: &mut Stats) -> Result<(), Fail> {
+    if !(sc.encoding == "utf-8" && std::str::from_utf8(&sc.doc).is_ok()) {
+        // text is transcoded lossily: exact conservation is stated for canonical input only
+        return Ok(());
+    }
+    let got = strip_marker(p_and_r);
+    if got == received {
+        st.bump("c11.stream_fault_exact");
+        return Ok(());
+    }
+    let detail = diff_detail("streaming handler failed while its token was being serialised: sink (minus inserted marker and bail-out appends) != bytes received so far", received, &got);
+    // known finding: exactly one whole token (the one being serialised) is in the sink twice
+    if got.len() > received.len() {
+        let d = got.len() - received.len();
+        let x = first_diff(&got, received).min(received.len());
+        // got = received[..x'] ++ received[x'-d..] for some x' >= x... find the x' that works
+        for xe in (d..=received.len()).rev() {
+            if xe < x.saturating_sub(d) {
+                break;
+            }
+            if got[..xe] == received[..xe] && got[xe..] == received[xe - d..] {
+                let toks = crate::tokens::capture(&sc.doc, &sc.encoding, false, &sc.cuts, crate::tokens::CAP_ALL);
+                if toks.toks.iter().any(|t| t.loc().1 == xe && (t.loc().0 == xe - d || (t.is_text() && t.loc().0 < xe - d && sc.cuts.contains(&(xe - d))))) {
+                    return Err(Fail::known("C11.conservation", format!("{detail}; token at {}..{} emitted, then re-flushed raw", xe - d, xe), "streaming_handler_error_after_token_emitted"));
+                }
+            }
+        }
+    }
+    // known finding KF-C11-2: the head of a multi-byte character held by the text decoder across
+    // a write boundary is lost when a text handler fails on the chunk that completes it
+    if got.len() < received.len() && received.len() - got.len() <= 3 && sc.handlers.iter().any(|h| matches!(h, HandlerSpec::Text { .. } if !h.is_observer())) {
+        let d = received.len() - got.len();
+        let x = first_diff(&got, received);
+        if got[..x] == received[..x] && got[x..] == received[x + d..] && sc.cuts.contains(&(x + d)) && (sc.doc[x + d] & 0xC0) == 0x80 && sc.doc[x] >= 0xC0 {
+            return Err(Fail::known("C11.conservation", format!("{detail}; bytes {x}..{} were held by the text decoder", x + d), "decoder_held_bytes_lost"));
+        }
+    }
+    Err(Fail::new("C11.conservation", detail))
 }
 
 /// The failing text chunk is not the first chunk delivered to that handler since the enclosing
